@@ -1,8 +1,13 @@
 package props
 
 import (
+	"encoding/json"
 	"fmt"
 	"math/big"
+	"net/http"
+	"time"
+
+	"verifharness/inproc"
 
 	"verifharness/core"
 	"verifharness/lnmodel"
@@ -114,6 +119,24 @@ func runC16(r *core.Run) {
 				want := lim.MaxBalance > 0 && bal.Cmp(bigU(lim.MaxBalance)) >= 0
 				if info.Nuts.Nut04.Disabled != want {
 					r.Violate(fmt.Sprintf("info-disabled:want=%v", want), fmt.Sprintf("nuts.4.disabled=%v with balance %v and max balance %d", info.Nuts.Nut04.Disabled, bal, lim.MaxBalance), csig, s.Tail(6))
+				}
+				// and the same flag as the info endpoint shows it to a wallet, asked after every operation
+				req, _ := http.NewRequest("GET", "http://mint/v1/info", nil)
+				if st, _, body, p, hang := inproc.Serve(env.Handler(), req, 60*time.Second); p == "" && !hang && st == 200 {
+					var hi struct {
+						Nuts map[string]json.RawMessage `json:"nuts"`
+					}
+					var n4 struct {
+						Disabled bool `json:"disabled"`
+					}
+					if json.Unmarshal(body, &hi) == nil && json.Unmarshal(hi.Nuts["4"], &n4) == nil {
+						r.Count("http_info_flags_compared", 1)
+						if n4.Disabled != want {
+							r.Violate(fmt.Sprintf("http-info-disabled:want=%v", want), fmt.Sprintf("GET /v1/info shows nuts.4.disabled=%v with balance %v and max balance %d", n4.Disabled, bal, lim.MaxBalance), csig, s.Tail(6))
+						}
+					}
+				} else {
+					r.Violate("http-info:unavailable", fmt.Sprintf("GET /v1/info: status %d panic=%q hang=%v", st, p, hang), csig, nil)
 				}
 			}
 			// --- limit decisions at the boundary (every 3rd op, quotes are cheap)
